@@ -1,0 +1,33 @@
+//go:build verif
+
+package result
+
+import (
+	"github.com/keep-network/keep-core/pkg/net"
+	"github.com/keep-network/keep-core/pkg/protocol/group"
+)
+
+// Verification hook (build tag verif, property C12): re-exports the result
+// signing state's Receive method and its stored message list.
+
+type VerifC12Receiver struct {
+	Receive func(msg net.Message) error
+	Stored  func() int
+}
+
+func VerifC12NewReceiver(member *SigningMember) *VerifC12Receiver {
+	st := &resultSigningState{member: member}
+	return &VerifC12Receiver{st.Receive, func() int { return len(st.signatureMessages) }}
+}
+
+func VerifC12NewMessage(
+	senderID group.MemberIndex,
+	publicKey []byte,
+	sessionID string,
+) *DKGResultHashSignatureMessage {
+	return &DKGResultHashSignatureMessage{
+		senderIndex: senderID,
+		publicKey:   publicKey,
+		sessionID:   sessionID,
+	}
+}
